@@ -4,6 +4,8 @@
 // All scalars cross the boundary as 64-bit words holding the bit pattern of the typed
 // value (never through a floating-point conversion).
 #pragma once
+#include <cstring>
+#include <new>
 #include "../cov.hpp"
 #include "istack.hpp"
 
@@ -263,8 +265,14 @@ struct StackImpl : IStack {
     }
     Words at(const Words & c) const override
     {
-        view_t v(f);
-        view_t w(v);   // views are copyable values
+        // views are copyable values: the lookup goes through a copy whose original has been destroyed, its memory
+        // overwritten and released
+        void * mem = ::operator new(sizeof(view_t), std::align_val_t(alignof(view_t)));
+        view_t * vp = new (mem) view_t(f);
+        view_t w(*vp);
+        vp->~view_t();
+        std::memset(mem, 0xA5, sizeof(view_t));
+        ::operator delete(mem, std::align_val_t(alignof(view_t)));
         return out(w.at(coord(c)));
     }
     template <size_t... Is>
